@@ -80,6 +80,18 @@ def gen_wire_cases(rng, n, big, ops=('unpack', 'acc')):
                 encs.append(('mutated', encode(sch, m, rng, {'overlong': True, 'shuffle': rng.random() < 0.5})))
             if rng.random() < 0.3:
                 encs.append(('random', bytes(rng.getrandbits(8) for _ in range(rng.randrange(0, 24)))))
+            if rng.random() < 0.4:
+                # the parser is lenient about 5-byte keys: field numbers 2^29 .. 2^32-1 are accepted and kept as unknown
+                # fields; whatever it accepts must be measured and written consistently
+                extra = b''
+                for _ in range(rng.choice([1, 1, 2, 3])):
+                    num = rng.choice([1 << 29, (1 << 29) + 1, (1 << 29) + 15, (1 << 29) + 16, (1 << 30) + 5, (1 << 31), (1 << 32) - 1,
+                                      (1 << 29) + (1 << 25) - 1, (1 << 29) + (1 << 25), rng.randrange(1 << 29, 1 << 32)])
+                    wt = rng.choice([0, 1, 2, 5])
+                    extra += enc_varint((num << 3) | wt)
+                    extra += {0: enc_varint(rng.getrandbits(rng.choice([3, 20, 64]))), 1: bytes(8), 5: b'\x01\x02\x03\x04',
+                              2: b'\x03abc'}[wt]
+                encs.append(('mutated', extra + base if rng.random() < 0.5 else base + extra))
             for kind, b in encs:
                 stats[kind] += 1
                 for op in ops:
